@@ -40,6 +40,36 @@ def main(path):
             print(f'typecheck: INTERNAL {type(e).__name__}: {e}')
         print('expected:', d.get('expected'))
         return 0
+    if 'input_bytes' in c:
+        # a source FILE given byte for byte (C10 command-line / encoding cases, C13 raw characters)
+        import os
+        import subprocess
+        import sys
+        data = c['input_bytes'].encode('latin-1')
+        print('input file bytes:', data[:400])
+        try:
+            lines = env.compile_file_bytes(data, word=c.get('word', 2))
+            print(f'SourceCode.from_file -> compiled, {len(lines)} lines')
+            run = diff.run_lines(lines, [], 2_000_000, monitors=False)
+            print('run:', run.kind, run.outcome.brief() if run.outcome else run.detail)
+        except Exception as e:  # noqa
+            print(f'SourceCode.from_file path: {type(e).__name__}: {e}')
+        if 'options' in c:
+            scratch = os.environ.get('HIDVERIF_SCRATCH') or os.path.join(env.VERIF, '.scratch')
+            os.makedirs(scratch, exist_ok=True)
+            inp, out = os.path.join(scratch, 'replay-in.hid'), os.path.join(scratch, 'replay-out.s')
+            with open(inp, 'wb') as f:
+                f.write(data)
+            e = dict(os.environ, PYTHONPATH=env.REPO)
+            p = subprocess.run([sys.executable, '-m', 'hidc', inp, '-o', out] + list(c['options']), env=e, capture_output=True, timeout=120)
+            print(f'python -m hidc {" ".join(c["options"])}: exit {p.returncode}; output file {"exists" if os.path.exists(out) else "absent"}')
+            print('stderr:', p.stderr.decode("utf-8", "replace")[-600:])
+            for x in (inp, out):
+                if os.path.exists(x):
+                    os.remove(x)
+        if d.get('expected') is not None:
+            print('expected:', json.dumps(d['expected'], default=str)[:1000])
+        return 0
     if 'text' in c:
         from .model import reftok as R
         for name, fn in (('hidc.lexer.lex', R.hidc_lex), ('reference tokenizer', R.ref_lex)):
